@@ -171,6 +171,11 @@ def run(ctx) -> Result:
             if p.kind == "impl" and "both completed" in p.what:
                 res.bad("impl", "a successfully executed job is back in the queue after the worker stopped (it will run twice)",
                         case=p.case, observed=p.observed, expected="acked and gone")
+    # Redis broker: sessions on the real RedisMessageBroker/_RedisConsumer (in-process fake server) vs the Lean model
+    # Redis.R, and this property's clauses on what the implementation did
+    import redisrun
+    res.merge(redisrun.part(ctx, "C14", ['race', 'mixed'], crash=0, race=8))
+    res.assumptions = list(getattr(res, "assumptions", []) or []) + redisrun.ASSUMPTIONS
     return res
 
 
